@@ -624,13 +624,12 @@ def run(ctx):
                     spikes += sum(int(F.dec_float(x) != 0) for p in o for x in p[1][1])
                 else:
                     spikes += sum(int(F.dec_float(x) != 0) for x in o[1])
-    if cands:
-        seen = Counter(json.dumps(k["signature"], sort_keys=True) for k in cands)
+    if cands and listed:
+        fails += cands
+    elif cands:
         print(f"FINDING-CANDIDATE: property={ID} RecurrentSerial with refrac_t = 0 feeds the all-True Neuron.spike attribute "
               f"to the lateral/feedback connections ({len(cands)} oracle disagreements in {len({id(k['case']) for k in cands})} "
-              f"cases; {'listed in known_findings.json' if listed else 'NOT yet listed in known_findings.json'})")
-        if listed:
-            fails += cands
+              f"cases; NOT yet listed in known_findings.json - see the C17 report for the entry)")
     errs = Counter(("err%d" % t[1]) for r in impl for t in r["trace"] if t[0] == 1)
     return {
         "evaluations": len(cases),
